@@ -250,6 +250,9 @@ pub struct Cmd<'a> {
   pub stdout_to: Option<PathBuf>,
   /// the same for standard error (`2>> file`)
   pub stderr_to: Option<PathBuf>,
+  /// run as an unprivileged user (`setpriv --reuid=65534 --regid=65534 --clear-groups`): the checks themselves run as root,
+  /// for whom no permission bit means anything
+  pub unprivileged: bool,
 }
 
 impl<'a> Cmd<'a> {
@@ -266,7 +269,12 @@ impl<'a> Cmd<'a> {
       literal: false,
       stdout_to: None,
       stderr_to: None,
+      unprivileged: false,
     }
+  }
+  pub fn unprivileged(mut self) -> Self {
+    self.unprivileged = true;
+    self
   }
   pub fn stderr_to(mut self, p: &Path) -> Self {
     self.stderr_to = Some(p.to_path_buf());
@@ -303,12 +311,22 @@ impl<'a> Cmd<'a> {
     self.env.push((k.into(), v.into()));
     self
   }
+  pub fn env_remove_all(mut self, ks: &[&str]) -> Self {
+    self.env_remove.extend(ks.iter().map(|k| k.to_string()));
+    self
+  }
   pub fn timeout_s(mut self, s: u64) -> Self {
     self.timeout = Duration::from_secs(s);
     self
   }
   pub fn run(self) -> Out {
-    let mut c = Command::new(self.bin);
+    let mut c = if self.unprivileged {
+      let mut c = Command::new("setpriv");
+      c.args(["--reuid=65534", "--regid=65534", "--clear-groups"]).arg(self.bin);
+      c
+    } else {
+      Command::new(self.bin)
+    };
     // A quarter of the path-taking command lines are run the way a shell would run them from inside a directory reached
     // through a symbolic link: the working directory is `<shift>/lnk` (really `<shift>/deep/er`), PWD says `<shift>/lnk`, and
     // every relative path climbs back with `..` - which means the parent of the real directory, not of the link's name.
@@ -446,6 +464,12 @@ impl<'a> Cmd<'a> {
     }
     Out { code: status.code(), signal: status.signal(), stdout, stderr, timed_out }
   }
+}
+
+/// whether commands can be run as an unprivileged user here (`setpriv` present and permitted)
+pub fn can_drop_privileges() -> bool {
+  static CAN: std::sync::OnceLock<bool> = std::sync::OnceLock::new();
+  *CAN.get_or_init(|| Command::new("setpriv").args(["--reuid=65534", "--regid=65534", "--clear-groups", "true"]).status().map(|s| s.success()).unwrap_or(false))
 }
 
 /// A scratch directory under the work dir, removed on drop.
